@@ -90,6 +90,75 @@ definition: every entry designates a surface that is written and has the flagged
 def designates (written : List (Nat × String)) (defs : Nat → Option String) (es : List (Nat × String)) : Prop :=
   ∀ e ∈ es, ∃ d, (e.1, d) ∈ written ∧ defs e.1 = some d
 
+/-- the ids that get an entry are exactly the ids of the flagged surfaces -/
+theorem entry_ids : ∀ (surfs : List BCSurf) (es : List (Nat × String)), bcEntries surfs = .ok es →
+    ∀ i, (∃ k, (i, k) ∈ es) ↔ ∃ s ∈ surfs, s.flag ≠ "" ∧ s.id = i
+  | [], es, h, i => by
+    simp only [bcEntries, Except.ok.injEq] at h
+    subst h; simp
+  | s :: rest, es, h, i => by
+    unfold bcEntries at h
+    by_cases hf : (s.flag == "") = true
+    · simp only [hf, if_true] at h
+      rw [entry_ids rest es h i]
+      have : s.flag = "" := by simpa using hf
+      constructor
+      · rintro ⟨x, hx, h1, h2⟩; exact ⟨x, List.mem_cons_of_mem _ hx, h1, h2⟩
+      · rintro ⟨x, hx, h1, h2⟩
+        rcases List.mem_cons.mp hx with rfl | hx'
+        · exact absurd this h1
+        · exact ⟨x, hx', h1, h2⟩
+    · simp only [hf, Bool.false_eq_true, if_false] at h
+      have hne : s.flag ≠ "" := by simpa using hf
+      by_cases hp : s.parts > 1
+      · simp [hp] at h
+      · simp only [hp, if_false] at h
+        cases hk : bcKind? s.flag with
+        | none => simp [hk] at h
+        | some k =>
+          simp only [hk] at h
+          cases hr : bcEntries rest with
+          | error e => simp [hr] at h
+          | ok es' =>
+            simp only [hr, Except.ok.injEq] at h
+            subst h
+            have ih := entry_ids rest es' hr i
+            constructor
+            · rintro ⟨k', hk'⟩
+              rcases List.mem_cons.mp hk' with heq | hm
+              · cases heq; exact ⟨s, List.mem_cons_self, hne, rfl⟩
+              · obtain ⟨x, hx, h1, h2⟩ := ih.mp ⟨k', hm⟩
+                exact ⟨x, List.mem_cons_of_mem _ hx, h1, h2⟩
+            · rintro ⟨x, hx, h1, h2⟩
+              rcases List.mem_cons.mp hx with rfl | hx'
+              · exact ⟨k, by rw [← h2]; exact List.mem_cons_self⟩
+              · obtain ⟨k', hk'⟩ := ih.mpr ⟨x, hx', h1, h2⟩
+                exact ⟨k', List.mem_cons_of_mem _ hk'⟩
+
+/-- **designation, partial**: the entries designate written surfaces with the flagged surfaces' definitions exactly
+when every flagged surface of the dictionary is itself written under its own number — which the current tree does
+not guarantee (a flagged surface that bounds no converted cell, or one merged into a lower-numbered duplicate, is not
+written: findings F2a / F2b) -/
+theorem designates_iff_flagged_written_partial (surfs : List BCSurf) (es : List (Nat × String))
+    (h : bcEntries surfs = .ok es) (written : List (Nat × String)) (defs : Nat → Option String) :
+    designates written defs es ↔ ∀ s ∈ surfs, s.flag ≠ "" → ∃ d, (s.id, d) ∈ written ∧ defs s.id = some d := by
+  unfold designates
+  constructor
+  · intro hd s hs hf
+    obtain ⟨k, hk⟩ := (entry_ids surfs es h s.id).mpr ⟨s, hs, hf, rfl⟩
+    exact hd (s.id, k) hk
+  · intro hw e he
+    obtain ⟨s, hs, hf, hid⟩ := (entry_ids surfs es h e.1).mp ⟨e.2, he⟩
+    rw [← hid]
+    exact hw s hs hf
+
+/-- the full-strength clause is false of the model (as of the code): a flagged surface that is not written still
+gets its entry -/
+theorem designation_fails_when_a_flagged_surface_is_not_written :
+    ∃ (surfs : List BCSurf) (es : List (Nat × String)) (written : List (Nat × String)) (defs : Nat → Option String),
+      bcEntries surfs = .ok es ∧ ¬ designates written defs es :=
+  ⟨[⟨9, "*", 1⟩], [(9, "REFLECTION")], [], fun _ => none, by simp [bcEntries, bcKind?], by simp [designates]⟩
+
 example : bcEntries [⟨1, "", 1⟩, ⟨2, "*", 1⟩, ⟨3, "+", 1⟩] = .ok [(2, "REFLECTION"), (3, "COSINUS")] := by
   simp [bcEntries, bcKind?]
 example : bcEntries [⟨1, "*", 6⟩] = .error .macrobody := by simp [bcEntries]
